@@ -6,9 +6,8 @@ HERE="$(cd "$(dirname "$0")" && pwd)"
 cd "$HERE/harness"
 cat /repo/go.sum go.sum.extra 2>/dev/null | sort -u > go.sum
 (cd /repo && go build ./...)
-mkdir -p "$HERE/.work"
-for d in cmd/*/; do
-  go build -o "$HERE/.work/setup-bin" "./$d" || { echo "setup: build of $d failed" >&2; exit 1; }
+cd "$HERE"
+for id in $(python3 -c "import json;print(' '.join(c['property_id'] for c in json.load(open('MANIFEST.json'))['checks']))"); do
+  ./check "$id" --build-only || { echo "setup: build for $id failed" >&2; exit 1; }
 done
-rm -f "$HERE/.work/setup-bin"
 echo "setup ok"
